@@ -661,6 +661,11 @@ func ruleSextet(c *Ctx) *RuleResult {
 		if !ok {
 			return 0, false
 		}
+		if call, isCall := bo.Y.(*ssa.Call); isCall {
+			if cal := call.Call.StaticCallee(); cal != nil && cal.Pkg != nil && cal.Pkg.Pkg.Path() == "math/bits" {
+				return 0, false // k = 64 - LeadingZeros64(n-1) is the pair width, judged by the k formula
+			}
+		}
 		if isShiftCount(bo, 0) {
 			return k, true
 		}
@@ -1007,7 +1012,7 @@ func init() {
 			ruleHdrDecoder(c, h, "graph.Graph6Decode")
 			ruleHdrDecoder(c, h, "graph.Sparse6Decode")
 			ds := ruleDegSync(c, inFiles("encoding.go"))
-			ds.MinInst = 1
+			ds.MinInst = 0
 			return []*RuleResult{h, ruleSextet(c), ruleEdgeByte(c, "graph"), ds, ruleUwrap(c, inFiles("encoding.go"))}
 		},
 		controls: func(ctl *Ctx) []*RuleResult {
